@@ -44,6 +44,14 @@ package types
 
 // ---------------------------------------------------------------- C11: canonical sign bytes
 
+// In the sign bytes a block id is nil exactly when it is the zero id (nil vote); every other id, complete
+// or not, is spelled out -- a signature over "nil" must never verify for an id that names something.
+//@ func CanonicalizeBlockID(bid kproto.BlockID) (r *kproto.CanonicalBlockID)
+//@   for C11 C02
+//@   modifies *
+//@   opt assumecallreqs
+//@   ensures [nilOnlyForTheZeroId] (r == nil) <==> (result(BlockIDFromProto, 0) == nil || *result(BlockIDFromProto, 0) == BlockID{})
+
 //@ func CreateCanonicalVote(chainID string, vote *kproto.Vote) (r kproto.CanonicalVote)
 //@   for C11 C02 C03
 //@   requires vote != nil
@@ -168,6 +176,15 @@ package types
 //@   ensures [rejectedUntouched] !added ==> bucketSum(voteSet, blockKey) == old(bucketSum(voteSet, blockKey)) && voteSet.maj23 == old(voteSet.maj23)
 //@   loop 1:
 //@     invariant 0 <= iter && iter <= len(votesByBlock.votes)
+
+// Recording a peer's +2/3 claim never touches votes already tallied: an existing bucket stays the same
+// object with the same sum; only a missing bucket is created (empty).
+//@ func (voteSet *VoteSet) SetPeerMaj23(peerID p2p.ID, blockID BlockID) (err error)
+//@   for C02 C18
+//@   requires wfVS(voteSet) && voteSet.peerMaj23s != nil
+//@   modifies *
+//@   opt assumecallreqs
+//@   ensures [existingBucketsKeepTheirVotes] forall k string :: old(has(voteSet.votesByBlock, k)) ==> has(voteSet.votesByBlock, k) && voteSet.votesByBlock[k] == old(voteSet.votesByBlock[k])
 
 //@ func (voteSet *VoteSet) Size() (r int)
 //@   for C18
